@@ -121,6 +121,24 @@ Theorem C07_our_open_roundtrip : forall c,
   Forall (fun f : fam => 0 <= snd f < 256) (c_families c) -> dec_open (enc_open (open_of c)) = Ok (open_of c).
 Proof. exact our_open_roundtrip. Qed.
 
+(* RFC 9072 s.2: the extended encoding is selected by the type octet (255) alone; the length octet before it is any
+   non-zero value and is ignored.  With the repaired selection (T6 probe EXT_BY_TYPE_OCTET) the modelled decoder
+   selects exactly that, and reads every list of capabilities whatever that octet is; the unrepaired selection
+   (both octets 255) reads the witness of the last statement in the base encoding. *)
+Theorem C07_rfc9072_selection : forall d,
+  EXT_BY_TYPE_OCTET = true -> 4 <= len d -> ext_selected d = rfc9072_extended d.
+Proof. exact ext_selection_is_rfc. Qed.
+
+Theorem C07_rfc9072_any_length_octet : forall caps L,
+  EXT_BY_TYPE_OCTET = true -> L <> 0 -> Forall wf_cap caps ->
+  let q := flat_map enc_param2 (map enc_cap caps) in
+  dec_optparams (L :: OPEN_EXTENDED_MARKER :: be16 (len q) ++ q) = Ok caps.
+Proof. exact ext_any_length_octet. Qed.
+
+Theorem C07_rfc9072_length_octet_witness :
+  ext_selected [4; 255; 0; 5; 2; 0; 2; 2; 0] = EXT_BY_TYPE_OCTET /\ rfc9072_extended [4; 255; 0; 5; 2; 0; 2; 2; 0] = true.
+Proof. exact ext_length_octet_refuted. Qed.
+
 (* The encoding is a string of octets whenever the values fit their wire fields (each capability value at most
    253 octets so that its parameter fits one length octet, optional parameters at most 65535 octets). *)
 Theorem C07_enc_open_bytes : forall o, fits_open o -> bytes (enc_open o).
@@ -181,5 +199,8 @@ Print Assumptions C07_short_open.
 Print Assumptions C07_bad_version.
 Print Assumptions C07_open_roundtrip.
 Print Assumptions C07_our_open_roundtrip.
+Print Assumptions C07_rfc9072_selection.
+Print Assumptions C07_rfc9072_any_length_octet.
+Print Assumptions C07_rfc9072_length_octet_witness.
 Print Assumptions C07_enc_open_bytes.
 Print Assumptions C07_decoder_total.
